@@ -225,8 +225,8 @@ def parse_shape(R, ctx):
     I = FDI(f, effects=EFF, no_inline=NI, no_models=[r'Iterator>?::any$'], loop_k=ctx.k(1, 2), max_steps=80000, max_rows=80000)
     rows = I.run(b.path, arg_names=['spec'])
     import table as T
-    bad_ok = bad_push = bad_ws = bad_lvl = bad_name = None
-    n_ok = n_err = n_errseg = n_ws = n_lvl = 0
+    bad_ok = bad_push = bad_ws = bad_lvl = bad_name = bad_all = None
+    n_ok = n_err = n_errseg = n_ws = n_lvl = n_all = 0
     for r in rows:
         if r.undecided:
             raise CheckError(f"R17.3 parse table UNDECIDED: {r.undecided}")
@@ -286,6 +286,16 @@ def parse_shape(R, ctx):
                                           "the words the renderer writes (incl. `off`) are not all understood, so Display/TOML text does not parse back to the same specification"
                             else:
                                 raise CheckError(f"R17.1: origin of a pushed level not recognised: {repr(lx)[:200]}")
+        # (e) every part is examined: the loop over the comma-separated parts ends only when the split iterator itself is exhausted - a truncating
+        # adaptor (take_while / map_while), a `break` or an early return on some part leaves the rest of the text unexamined: module filters
+        # behind it are silently missing and malformed parts behind it are not reported
+        cn = [e for e in r.effects if e[0].split('::')[-1] == 'next' and _splits_at(e[2]['x'][0], ',')]
+        if cn and (is_ok or is_err):
+            n_all += 1
+            if r.get(f"variant({cn[-1][0]}#{cn[-1][2].get('n')})") != 'None':
+                bad_all = ("the loop over the comma-separated parts ends before the parts are exhausted (after a part that is " +
+                           ("empty" if any('is_empty' in a and 'next#' in a for a, _v in r.cond) else "not accepted") +
+                           "): the rest of the specification text is neither applied nor reported as malformed")
         # the last segment header (next() == None) is followed by the text-filter part: not a segment
         for sg in segs[:-1] if segs else []:
             if sg['err']:
@@ -308,6 +318,9 @@ def parse_shape(R, ctx):
         raise CheckError(f"R17.3: form of parse not recognised (ok rows {n_ok}, error rows {n_err}, erroneous segments {n_errseg}, whitespace cases {n_ws})")
     R.check('R17.3', f"{b.path}|ok-iff-no-error-text", not bad_ok, f"{n_ok} Ok rows all behind parse_errs.is_empty(); {n_err} rows return parse_err(text, spec)",
             f"LogSpecification::parse can return Ok although an error text was collected: {bad_ok}", where=b.loc(), sample={'rows': len(rows)})
+    if not bad_all and n_all < 4:
+        raise CheckError(f"R17.3: loop over the comma-separated parts not recognised ({n_all} rows)")
+    R.check('R17.3', f"{b.path}|every-part-examined", not bad_all, f"{n_all} rows: the part loop ends only when split(',') is exhausted", f"LogSpecification::parse: {bad_all}", where=b.loc())
     R.check('R17.3', f"{b.path}|erroneous-segments-not-pushed", not bad_push, f"{n_errseg} erroneous segments on {len(rows)} rows: none pushed",
             f"LogSpecification::parse: {bad_push}", where=b.loc())
     # the error value carries the error text and the salvaged specification: Err(FlexiLoggerError::Parse(..)) is built in code parse() reaches
